@@ -157,12 +157,17 @@ def sim_part(thorough):
     from props import c14
     c14.patch_reexec_marker()
     for bind in ("tcp", "unix"):
-        for script in ([("parent-exit",), ("sig", "TERM")], [("parent-killed",), ("sig", "TERM")], [("parent-exit",), ("tick",), ("sig", "QUIT")], [("sig", "TERM")]):
+        for script in ([("parent-exit",), ("sig", "TERM")], [("parent-killed",), ("sig", "TERM")], [("parent-exit",), ("tick",), ("sig", "QUIT")], [("sig", "TERM")],
+                       # the stop signal arrives in the same instant as the news of the old master's death (no idle tick in between)
+                       [(("parent-exit",), ("sig", "TERM"))], [(("parent-killed",), ("sig", "QUIT"))], [(("parent-exit",), ("sig", "INT"))]):
             k, o = c14.new_execute({"bind": bind, "daemon": False}, list(script))
             runs += 1
             left = {p: d for p, d in k.fs.snapshot().items() if d == b"%d\n" % c14.NEW_PID}
             if o.end != "exit" or o.code != 0:
                 viols.setdefault("upgraded-master:exit-status", violation("sim:upgraded-master:exit-status", "upgraded master, history %r: %s %r" % (script, o.end, o.code), {"part": "sim-upgraded"}))
+            elif bind == "unix" and script != [("sig", "TERM")] and not any(t[0] == "unlink-socket" for t in k.trace):
+                viols.setdefault("upgraded-master:unix-socket-left", violation("sim:upgraded-master:unix-socket-left", "upgraded master, history %r: it was the last master "
+                                 "(its parent had gone) when it stopped, yet the unix socket path was not unlinked" % (script,), {"part": "sim-upgraded"}))
             elif left:
                 viols.setdefault("upgraded-master:pidfile-left", violation("sim:upgraded-master:pidfile-left", "upgraded master (pid %d), history %r: after its exit the pid file(s) %r still name it" % (
                     c14.NEW_PID, script, sorted(left)), {"part": "sim-upgraded"}))
